@@ -676,6 +676,7 @@ impl Failure {
 
 const SIG_ALIEN_TYPE_LOAD: &str = "c10:copy-move-keeps-element-type-of-source-parent";
 const SIG_PARTIAL_MERGE: &str = "c11:failed-load-partial-merge";
+const SIG_COLLISION_C13: &str = "c13:copy-of-colliding-container";
 const SIG_NONTRANSITIVE: &str = "c14:comparison-not-transitive-missing-definition-ref";
 
 /// serialized text of (a duplicate of `top`'s model, sorted at the place of `top`) and of (a duplicate in which every element below
@@ -1401,7 +1402,10 @@ impl Checker {
                 if e.is_identifiable() {
                     let found = e.path().ok().and_then(|p| m.get_element_by_path(&p));
                     if found.as_ref() != Some(&e) {
-                        out.push(Failure::new("C13", "copy-lookup", format!("`{req}`: copied identifiable {} is not found under its path in the destination model", self.nm(&e))));
+                        let msg = format!("`{req}`: copied identifiable {} is not found under its path in the destination model", self.nm(&e));
+                        // a history that already holds two elements with one path (container move / copy collision, known
+                        // finding c04:container-move-copy-collision) copies that state
+                        out.push(if self.stop_c456 { Failure::known("C13", SIG_COLLISION_C13, msg) } else { Failure::new("C13", "copy-lookup", msg) });
                         break;
                     }
                 }
